@@ -17,13 +17,13 @@ import (
 
 // Config is a point of the lattice of built-in configurations.
 type Config struct {
-	GFM                           bool // extension.GFM as one object
-	Linkify, Table, Strike, Task  bool // the members individually
-	DefList, Footnote, Typo       bool
-	CJK                           int // 0 none, 1 extension.CJK, 2 simple, 3 css3draft, 4 escaped space only, 5 css3draft+escaped space
-	AutoID, Attr                  bool
-	Unsafe, XHTML, HardWraps      bool
-	TableAlign                    int // 0 default, 1 attribute, 2 style, 3 none
+	GFM                          bool // extension.GFM as one object
+	Linkify, Table, Strike, Task bool // the members individually
+	DefList, Footnote, Typo      bool
+	CJK                          int // 0 none, 1 extension.CJK, 2 simple, 3 css3draft, 4 escaped space only, 5 css3draft+escaped space
+	AutoID, Attr                 bool
+	Unsafe, XHTML, HardWraps     bool
+	TableAlign                   int // 0 default, 1 attribute, 2 style, 3 none
 }
 
 // String is the canonical, parseable name.
@@ -243,13 +243,13 @@ var Representative = []Config{
 
 // ConfigOpts restricts DrawConfig.
 type ConfigOpts struct {
-	SafeOnly   bool // never Unsafe
-	NoCJK      bool
-	PinAlign   bool // TableAlign ∈ {1,2} whenever a table is on
-	NoAttr     bool
-	ForceAttr  bool
-	ForceAuto  bool
-	OnlyRep    bool // only representative points
+	SafeOnly  bool // never Unsafe
+	NoCJK     bool
+	PinAlign  bool // TableAlign ∈ {1,2} whenever a table is on
+	NoAttr    bool
+	ForceAttr bool
+	ForceAuto bool
+	OnlyRep   bool // only representative points
 }
 
 // DrawConfig draws a configuration: half of the time a representative
